@@ -134,6 +134,15 @@ CLAIMED = {
              "cells, scalar and per-sample signals. Relational: kernel STDP with the shipped exponential kernels == delay-adjusted STDP (weights and "
              "delays); with all delays zero delay-adjusted == unadjusted KernelSTDP.",
         ref="6/C18"),
+    "C20": dict(
+        text="(i) interp(extrap(x)) == x for the 10 matching pairs and every extrapolation kernel == its documented closed form, linear interpolation "
+             "between the brackets and equal to them at the ends - symbolic sample, brackets, sample time. (ii) Poisson/Normal/LogNormal with symbolic "
+             "parameters, special functions as uninterpreted functions: density == documented formula, exp(log-density) == density, log-CDF == log(CDF) "
+             "(terminates), CDF formula, Normal mean/variance round trip. (iii) Victor-Purpura on sorted symbolic spike-time vectors (sizes <= (3,1)/(2,2), "
+             "(3,3) thorough) with symbolic finite and finite-or-infinite cost: identity, symmetry, triangle, |n0-n1| <= d <= n0+n1, documented limits at "
+             "cost 0 and inf, tensor cost == float cost. (iv) ISI: every raster up to 8 bits (path enumeration). NOT covered: integral / moment identities, "
+             "LogNormal parameter round trip.",
+        ref="6/C20"),
 }
 
 REASONS = {}
